@@ -11,10 +11,10 @@
       - the decorator [_try_to_reorder] (dd/bdd.py 79-111, with
         [_ReorderingContext] 114-140) is correct for ANY wrapped operation
         that meets a specification stated by variable name ([op_spec]),
-        RELATIVE to the premise [sifting_ok] on [reorder None =
+        RELATIVE to the premise [sifting_ok'] on [reorder None =
         _apply_sifting] (proved separately; it rests on the adjacent-level
         swap).  The premise is an ordinary hypothesis of every theorem; its
-        definition is restated in [C09_sifting_ok_def];
+        definition is restated in [C09_sifting_ok'_def];
       - instances: [ite], [var], [quantify] (names), [cofactor] (names), and
         [apply] for every propositional symbol of the vocabulary;
       - the property is FALSE of the model (and of the implementation) for
@@ -31,8 +31,10 @@
       - [Counts s L]: every reference count is in-degree + [L n] (the ledger
         [L] of references held by the user), [L] is 0 outside the manager;
       - [reach m R n]: node [n] is reachable in [m] from a node satisfying [R];
-      - [ref_by L s n]: [n] is the terminal or reachable from a node the user
-        holds;
+      - [heldn L n]: [n] is the terminal or a node the user holds
+        ([0 < L n]); [ref_by L s n]: [n] is the terminal or reachable from a
+        held node (only used to show that the premise cannot be widened to
+        such nodes, [C09_sifting_ok_reach_false]);
       - [keeps K s s']: same declared variables, and every reference of [s]
         into the node set [K] is a reference of [s'] with the same function
         by variable name;
@@ -42,6 +44,9 @@ From DD Require Import Dynamic C01proof.
 Local Open Scope string_scope.
 
 (** ** The definitions the statements are read against *)
+Theorem C09_heldn_def L n : heldn L n ↔ n = 1%positive ∨ 0 < L n.
+Proof. exact (conj (fun H => H) (fun H => H)). Qed.
+
 Theorem C09_ref_by_def L s n :
   ref_by L s n ↔ n = 1%positive ∨ reach (succ s) (fun k => 0 < L k) n.
 Proof. exact (conj (fun H => H) (fun H => H)). Qed.
@@ -58,12 +63,27 @@ Proof. exact (conj (fun H => H) (fun H => H)). Qed.
     iteration-order oracle error (a recorded order that is not a permutation;
     no Python counterpart) or succeeds, keeps the invariant and the counts
     with the same ledger, leaves requests off and the context flag alone,
-    keeps the declared variables, and keeps every node the user holds or can
-    reach (same number) with the same function by name.  Nodes that nobody
-    holds may be freed and their numbers reused: nothing is claimed for
-    them. *)
-Theorem C09_sifting_ok_def :
-  sifting_ok ↔
+    keeps the declared variables, and keeps every node the user HOLDS (same
+    number) with the same function by name.  Nothing is claimed for the
+    other nodes, even those reachable from a held node: they may be freed,
+    rebuilt under another number, and their numbers reused. *)
+Theorem C09_sifting_ok'_def :
+  sifting_ok' ↔
+  ∀ s L r s',
+    Inv s → Counts s L → last_len s = None →
+    reorder None s = (r, s') →
+    r = Err EOracle ∨
+    (r = Ok tt ∧ Inv s' ∧ Counts s' L ∧ last_len s' = None ∧ rctx s' = rctx s ∧
+     dom (vars s') = dom (vars s) ∧
+     ∀ u, u ≠ 0%Z → (absn u = 1%positive ∨ 0 < L (absn u)) → valid s u →
+          valid s' u ∧ ∀ ρ, denv s' u ρ = denv s u ρ).
+Proof. exact (conj (fun H => H) (fun H => H)). Qed.
+
+(** The premise cannot be widened to the nodes REACHABLE from a held node:
+    that statement is false of the model.  (f = (v0 /\ v1) \/ v2 held as node
+    7; sifting frees its inner node 6 and reuses number 4.) *)
+Theorem C09_sifting_ok_reach_def :
+  sifting_ok_reach ↔
   ∀ s L r s',
     Inv s → Counts s L → last_len s = None →
     reorder None s = (r, s') →
@@ -75,6 +95,31 @@ Theorem C09_sifting_ok_def :
           valid s u →
           valid s' u ∧ ∀ ρ, denv s' u ρ = denv s u ρ).
 Proof. exact (conj (fun H => H) (fun H => H)). Qed.
+
+Theorem C09_sifting_ok_reach_false : ¬ sifting_ok_reach.
+Proof. exact sifting_ok_reach_false. Qed.
+
+(** the same in a dynamic-reordering run: the forced trigger fires inside
+    [apply "xor" f TRUE]; the held node 7 keeps number and truth table, the
+    result is [~f], requests are on again, the order is unchanged -- but
+    the reachable, unheld node 6 is gone, 7 has other children, and number
+    4 denotes another function *)
+Example C09_unheld_inner_node_replaced :
+  let w0 := run_ops [ONew [(0, 0); (1, 1); (2, 2)]; OVar 0; OVar 1; OVar 2;
+                     OApply "and" 2 (Some 3%Z) None; OApply "or" 5 (Some 4%Z) None;
+                     OIncref 7; OConfigure (Some true)] in
+  let w1 := fst (step w0 0 (OSetTrig (Some 1))) in
+  let '(wB, rB) := step w1 0 (OApply "xor" 7 (Some 1%Z) None) in
+  let s := world_get w0 0 in let sB := world_get wB 0 in
+  succ s !! 7%positive = Some (Triple 0 4 6) ∧ succ s !! 6%positive = Some (Triple 1 4 1) ∧
+  refc s !! 7%positive = Some 1 ∧
+  rB = Ok (VZ (-7)) ∧ trig sB = None ∧ last_len sB = Some 8 ∧
+  map_to_list (vars sB) = map_to_list (vars s) ∧
+  table 3 sB (Ok (VZ 7)) = table 3 s (Ok (VZ 7)) ∧
+  succ sB !! 6%positive = None ∧
+  succ sB !! 7%positive = Some (Triple 0 3 4) ∧
+  mem 4 sB = true ∧ table 3 sB (Ok (VZ 4)) ≠ table 3 s (Ok (VZ 4)).
+Proof. exact unheld_inner_node_replaced. Qed.
 
 (** Specification of a wrapped operation, by name. *)
 Theorem C09_op_spec_def {A} (func : MS A) (K : positive → Prop) Pre Post :
@@ -118,21 +163,21 @@ Proof. exact (spec_on func K Pre Post). Qed.
     and every reference the user holds keeps its number and its function.
     (The first disjunct is the model's oracle error inside sifting.) *)
 Theorem C09_decorator_correct {A} (func : MS A) Pre Post s L r s' :
-  sifting_ok →
-  op_spec func (ref_by L s) Pre Post →
+  sifting_ok' →
+  op_spec func (heldn L) Pre Post →
   Inv s → Counts s L → Pre s → rctx s = false →
   try_to_reorder func s = (r, s') →
   r = Err EOracle ∨
   ∃ a, r = Ok a ∧ Inv s' ∧ Counts s' L ∧ rctx s' = false ∧
        (last_len s = None → last_len s' = None) ∧
        (is_Some (last_len s) → is_Some (last_len s')) ∧
-       keeps (ref_by L s) s s' ∧ Post s a s'.
+       keeps (heldn L) s s' ∧ Post s a s'.
 Proof. exact (try_to_reorder_correct func Pre Post s L r s'). Qed.
 
 (** the internal signal never reaches the caller of a decorated operation *)
 Theorem C09_decorator_no_signal {A} (func : MS A) Pre Post s L r s' :
-  sifting_ok →
-  op_spec func (ref_by L s) Pre Post →
+  sifting_ok' →
+  op_spec func (heldn L) Pre Post →
   Inv s → Counts s L → Pre s → rctx s = false →
   try_to_reorder func s = (r, s') →
   r ≠ Err ENeedsReordering.
@@ -150,23 +195,23 @@ Proof. exact (ite_op_spec K g u v). Qed.
 
 (** ** [ite] *)
 Theorem C09_ite_dynamic s L g u v r s' :
-  sifting_ok →
+  sifting_ok' →
   Inv s → Counts s L → rctx s = false →
   valid s g → valid s u → valid s v →
-  ref_by L s (absn g) → ref_by L s (absn u) → ref_by L s (absn v) →
+  heldn L (absn g) → heldn L (absn u) → heldn L (absn v) →
   ite g u v s = (r, s') →
   r = Err EOracle ∨
   ∃ w, r = Ok w ∧ Inv s' ∧ Counts s' L ∧ rctx s' = false ∧
        (last_len s = None → last_len s' = None) ∧
        (is_Some (last_len s) → is_Some (last_len s')) ∧
-       keeps (ref_by L s) s s' ∧
+       keeps (heldn L) s s' ∧
        valid s' w ∧
        ∀ ρ, denv s' w ρ = if denv s g ρ then denv s u ρ else denv s v ρ.
 Proof. exact (ite_dynamic s L g u v r s'). Qed.
 
 (** ** [var] *)
 Theorem C09_var_dynamic s L name r s' :
-  sifting_ok →
+  sifting_ok' →
   Inv s → Counts s L → rctx s = false →
   is_Some (vars s !! name) →
   var name s = (r, s') →
@@ -174,30 +219,30 @@ Theorem C09_var_dynamic s L name r s' :
   ∃ w, r = Ok w ∧ Inv s' ∧ Counts s' L ∧ rctx s' = false ∧
        (last_len s = None → last_len s' = None) ∧
        (is_Some (last_len s) → is_Some (last_len s')) ∧
-       keeps (ref_by L s) s s' ∧
+       keeps (heldn L) s s' ∧
        valid s' w ∧ ∀ ρ, denv s' w ρ = ρ name.
 Proof. exact (var_dynamic s L name r s'). Qed.
 
 (** ** [apply], every propositional symbol and alias of the vocabulary
     ([conn_sem]: the documented connective, as in C01) *)
 Theorem C09_apply_dynamic s L op u v w r s' f :
-  sifting_ok →
+  sifting_ok' →
   Inv s → Counts s L → rctx s = false →
   op ∈ py_vocab → conn_sem op = Some f →
   valid s u → ovalid s v → ovalid s w → arity_ok op v w = true →
-  ref_by L s (absn u) → oref L s v → oref L s w →
+  heldn L (absn u) → oref L v → oref L w →
   apply op u v w s = (r, s') →
   r = Err EOracle ∨
   ∃ x, r = Ok x ∧ Inv s' ∧ Counts s' L ∧ rctx s' = false ∧
        (last_len s = None → last_len s' = None) ∧
        (is_Some (last_len s) → is_Some (last_len s')) ∧
-       keeps (ref_by L s) s s' ∧
+       keeps (heldn L) s s' ∧
        valid s' x ∧
        ∀ ρ, denv s' x ρ = f (denv s u ρ) (odenv s v ρ) (odenv s w ρ).
 Proof. exact (apply_dynamic s L op u v w r s' f). Qed.
 
-Theorem C09_oref_def L s o :
-  oref L s o ↔ match o with Some x => ref_by L s (absn x) | None => True end.
+Theorem C09_oref_def L o :
+  oref L o ↔ match o with Some x => heldn L (absn x) | None => True end.
 Proof. exact (conj (fun H => H) (fun H => H)). Qed.
 
 (** ** [quantify], variables given by name.
@@ -213,16 +258,16 @@ Theorem C09_qsemv_def s fa Q u ρ :
 Proof. exact (conj (conj (fun H => H) (fun H => H)) (conj (fun H => H) (fun H => H))). Qed.
 
 Theorem C09_quantify_dynamic s L u qvars fa r s' :
-  sifting_ok →
+  sifting_ok' →
   Inv s → Counts s L → rctx s = false →
-  valid s u → ref_by L s (absn u) →
+  valid s u → heldn L (absn u) →
   Forall (fun k => is_Some (vars s !! k)) qvars →
   quantify u true qvars fa s = (r, s') →
   r = Err EOracle ∨
   ∃ x, r = Ok x ∧ Inv s' ∧ Counts s' L ∧ rctx s' = false ∧
        (last_len s = None → last_len s' = None) ∧
        (is_Some (last_len s) → is_Some (last_len s')) ∧
-       keeps (ref_by L s) s s' ∧
+       keeps (heldn L) s s' ∧
        valid s' x ∧
        ∀ ρ, denv s' x ρ = true ↔ qsemv s fa (list_to_set qvars) u ρ.
 Proof. exact (quantify_dynamic s L u qvars fa r s'). Qed.
@@ -243,16 +288,16 @@ Theorem C09_overridev_def nv ρ x :
 Proof. exact eq_refl. Qed.
 
 Theorem C09_cofactor_dynamic s L u values r s' :
-  sifting_ok →
+  sifting_ok' →
   Inv s → Counts s L → rctx s = false →
-  valid s u → ref_by L s (absn u) →
+  valid s u → heldn L (absn u) →
   Forall (fun p => is_Some (vars s !! p.1)) values →
   cofactor u true values s = (r, s') →
   r = Err EOracle ∨
   ∃ x, r = Ok x ∧ Inv s' ∧ Counts s' L ∧ rctx s' = false ∧
        (last_len s = None → last_len s' = None) ∧
        (is_Some (last_len s) → is_Some (last_len s')) ∧
-       keeps (ref_by L s) s s' ∧
+       keeps (heldn L) s s' ∧
        valid s' x ∧
        ∀ ρ, denv s' x ρ = denv s u (overridev (list_to_map (reverse values)) ρ).
 Proof. exact (cofactor_dynamic s L u values r s'). Qed.
@@ -339,7 +384,7 @@ Example C09_quantify_levels_refuted :
   table 4 (world_get wC 0) rC = table 4 (world_get wA 0) rA.
 Proof. exact quantify_levels_not_stable. Qed.
 
-(** The hypothesis "operands are held" ([ref_by L s (absn u)]) is necessary:
+(** The hypothesis "operands are held" ([heldn L (absn u)]) is necessary:
     the same history with f = 10 not held.  The aborted first attempt is
     followed by sifting, whose initial collection frees node 10; the second
     attempt fails with [KeyError]; dynamic reordering stays enabled
